@@ -156,6 +156,17 @@ struct Kernel {
     out_buf: VecDeque<u8>,
     out_cap: usize,
     in_queue: VecDeque<u8>,
+    /// per byte of in_queue: typed by the user (as opposed to an answer of the emulator)
+    in_origin: VecDeque<bool>,
+    /// complete typed characters the library has read from the tty so far
+    typed_chars_read: usize,
+    utf8_pending: u8,
+    /// `typed_chars_read` when the oldest wake request whose byte is still in the waker socket
+    /// was made
+    wake_floor: Option<usize>,
+    /// one entry per read of the waker socket (= per Wake event queued by the library, in
+    /// order): the floor of the oldest request that read consumed
+    wake_batches: VecDeque<usize>,
     termios: Termios,
     termios_initial: Termios,
     winsize: Winsize,
@@ -244,7 +255,29 @@ pub(super) fn install_yield_hook(kernel: &K) {
         }
         k.src.sig_str(name);
         k.run_due();
+        if name == "waker-read" {
+            // the read that follows consumes every request made so far: one Wake event
+            if let Some(floor) = k.wake_floor.take() {
+                k.wake_batches.push_back(floor);
+            }
+        }
     })));
+}
+
+/// A Wake event is being handed to the application. Wake events come out in the order in which
+/// the library read the waker socket; typed characters that it had already read from the tty
+/// when the oldest request consumed by that read was made were queued before that wake
+/// existed: they must have been delivered before it (events come out in arrival order).
+/// Returns a description when that is not the case.
+pub(super) fn wake_order_check(k: &mut Kernel, keys_delivered: usize) -> Option<String> {
+    let floor = k.wake_batches.pop_front()?;
+    if keys_delivered < floor {
+        k.src.probe("wake-event-overtook-input");
+        return Some(format!(
+            "a Wake event was delivered after {keys_delivered} key events although the library had already read {floor} typed characters from the tty when the wake request was made"
+        ));
+    }
+    None
 }
 
 fn cooked_termios() -> Termios {
@@ -509,11 +542,15 @@ impl Kernel {
                 if who == "user" {
                     self.typed.extend(String::from_utf8_lossy(&bytes).chars());
                 }
+                self.in_origin.extend(std::iter::repeat(who == "user").take(bytes.len()));
                 self.in_queue.extend(bytes);
             }
             Ev::Wake => {
                 if let Some(waker) = self.waker.clone() {
                     let res = waker.wake();
+                    if self.wake_floor.is_none() {
+                        self.wake_floor = Some(self.typed_chars_read);
+                    }
                     self.wakes_requested += 1;
                     self.last_wake_seq = self.steps;
                     self.src.sig_str("wake");
@@ -643,7 +680,24 @@ impl rustix::sim::Hooks for HooksImpl {
             k.src.fault("tty-short-read");
         }
         for slot in buf[..n].iter_mut() {
-            *slot = k.in_queue.pop_front().unwrap();
+            let byte = k.in_queue.pop_front().unwrap();
+            *slot = byte;
+            if k.in_origin.pop_front().unwrap_or(false) {
+                // count typed characters once their last byte has been read
+                if k.utf8_pending > 0 && byte & 0xc0 == 0x80 {
+                    k.utf8_pending -= 1;
+                } else {
+                    k.utf8_pending = match byte {
+                        0xc0..=0xdf => 1,
+                        0xe0..=0xef => 2,
+                        0xf0..=0xf7 => 3,
+                        _ => 0,
+                    };
+                }
+                if k.utf8_pending == 0 {
+                    k.typed_chars_read += 1;
+                }
+            }
         }
         k.src.sig(0x4ead0 + n.min(3) as u64);
         let now = k.now;
@@ -829,6 +883,7 @@ impl rustix::sim::Hooks for HooksImpl {
         if matches!(actions, OptionalActions::Flush) {
             // TCSAFLUSH: discard input that has been received but not read
             k.in_queue.clear();
+            k.in_origin.clear();
         }
         Ok(())
     }
@@ -965,6 +1020,11 @@ fn new_kernel(mut src: Src) -> Kernel {
         out_buf: VecDeque::new(),
         out_cap,
         in_queue: VecDeque::new(),
+        in_origin: VecDeque::new(),
+        typed_chars_read: 0,
+        utf8_pending: 0,
+        wake_floor: None,
+        wake_batches: VecDeque::new(),
         termios: termios.clone(),
         termios_initial: termios,
         winsize: Winsize { ws_row: rows, ws_col: cols, ws_xpixel: if pixels { cols * 10 } else { 0 }, ws_ypixel: if pixels { rows * 20 } else { 0 } },
@@ -1044,6 +1104,8 @@ struct App {
     last_wake_event_step: u64,
     /// a poll with a finite timeout kept looping after its deadline and then delivered an event
     overstay: Option<String>,
+    /// a Wake event overtook typed input the library had read before the wake was requested
+    overtaken: Option<String>,
     /// counters at the last clean boundary (start of the current epoch)
     epoch: Epoch,
     epochs: u64,
@@ -1099,6 +1161,9 @@ impl App {
                     Some(TerminalEvent::Wake) => {
                         self.wakes_seen += 1;
                         self.last_wake_event_step = k.borrow().steps;
+                        if let Some(msg) = wake_order_check(&mut k.borrow_mut(), self.keys.len()) {
+                            self.overtaken.get_or_insert(msg);
+                        }
                     }
                     Some(TerminalEvent::Resize(size)) => {
                         self.resizes_seen += 1;
@@ -1355,6 +1420,7 @@ fn session(ctx: &Ctx, kernel: &K) -> WorldResult {
         blocked_excused: false,
         last_wake_event_step: 0,
         overstay: None,
+        overtaken: None,
         epoch: Epoch::default(),
         epochs: 0,
         handler_error: false,
@@ -1708,6 +1774,9 @@ fn session(ctx: &Ctx, kernel: &K) -> WorldResult {
                         Some(TerminalEvent::Wake) => {
                             app.wakes_seen += 1;
                             app.last_wake_event_step = k.borrow().steps;
+                            if let Some(msg) = wake_order_check(&mut k.borrow_mut(), app.keys.len()) {
+                                app.overtaken.get_or_insert(msg);
+                            }
                         }
                         Some(TerminalEvent::Resize(size)) => {
                             app.resizes_seen += 1;
@@ -1784,6 +1853,9 @@ fn session(ctx: &Ctx, kernel: &K) -> WorldResult {
         }
     }
     if prop == "C17" {
+        if let Some(msg) = app.overtaken.take() {
+            return Err(violation("C17", "C17.event-order", "wake-overtakes-input", msg));
+        }
         if let Some(msg) = kernel.borrow_mut().ignored_input.take() {
             return Err(violation("C17", "C17.starved-input", "tty-readable-but-not-read", msg));
         }
